@@ -51,7 +51,7 @@ func VerifyFunc(pr *Prog, eff *Effects, fi *FuncInfo, opts VerifyOpts) (rep *Fun
 	x.view = opts.View
 	x.nn = opts.View == "C01"
 	if opts.Lockstep != nil {
-		x.lock = &lockCtx{coupled: map[string]bool{}, funcs: opts.Lockstep, two: RealLit(2)}
+		x.lock = &lockCtx{coupled: map[string]bool{}, funcs: opts.Lockstep, two: RealLit(2), defTwin: map[string]*Term{}}
 		x.noSafety = true
 	}
 	rep = &FuncReport{Key: fi.Key}
